@@ -842,7 +842,9 @@ class Terminal:
                          address, channel | priority << 6,
                          type.value | self.mbx_lock.next_counter() << 4,
                          *args, data=data)
-        await self.write(self.mbx_out_off + self.mbx_out_sz - 1, data=1)
+        if 6 + datasize(args, data) < self.mbx_out_sz:
+            await self.write(self.mbx_out_off + self.mbx_out_sz - 1,
+                             data=1)
 
     async def mbx_recv(self):
         """receive data from the mailbox"""
